@@ -36,9 +36,13 @@ type Type struct {
 	Name    string
 	Ret     *Type
 	VarArg  bool
+	Vec     string // "<n x elem>" for vector types (handled as opaque bit-vectors)
 }
 
 func (t *Type) String() string {
+	if t.Vec != "" {
+		return t.Vec
+	}
 	switch t.Kind {
 	case TVoid:
 		return "void"
@@ -110,6 +114,7 @@ type Instr struct {
 	InBounds bool
 	Atomic  string // ordering for atomic ops
 	RMWOp   string
+	Attrs   []string // call: ABI-relevant attributes, [0] return, [1+i] argument i
 	Text    string
 	ID      int
 }
@@ -129,6 +134,7 @@ type Func struct {
 	Linkage string
 	Module  string
 	NInstr  int
+	Attrs   []string // ABI-relevant attributes: [0] return, [1+i] parameter i
 }
 
 type Global struct {
@@ -213,6 +219,9 @@ func Convert(m llvm.Module, name string, withText bool) *Module {
 		fn := &Func{Name: f.Name(), IsDecl: f.IsDeclaration(), Linkage: linkNames[f.Linkage()], Module: name, BlockIx: map[string]*Block{}}
 		fn.Ty = c.typ(f.GlobalValueType())
 		c.mod.Funcs[fn.Name] = fn
+		for i := 0; i <= len(fn.Ty.Elems); i++ {
+			fn.Attrs = append(fn.Attrs, c.abiAttrs(func(k uint) llvm.Attribute { return f.GetEnumAttributeAtIndex(i, k) }))
+		}
 		if fn.IsDecl {
 			continue
 		}
@@ -275,6 +284,11 @@ func (c *conv) typ(t llvm.Type) *Type {
 		r.Kind, r.Bits = TPtr, 64
 	case llvm.LabelTypeKind:
 		r.Kind = TLabel
+	case llvm.VectorTypeKind:
+		// vectors only travel (load / store / argument / result): opaque bits
+		e := c.typ(t.ElementType())
+		r.Kind, r.Bits = TInt, t.VectorSize()*e.Bits
+		r.Vec = fmt.Sprintf("<%d x %s>", t.VectorSize(), e)
 	case llvm.StructTypeKind:
 		r.Kind = TStruct
 		r.Name = t.StructName()
@@ -312,6 +326,28 @@ func (c *conv) typ(t llvm.Type) *Type {
 		}
 	}
 	return r
+}
+
+var abiKinds = []string{"byval", "sret", "signext", "zeroext", "inreg"}
+
+// abiAttrs renders the attributes that change how a value is passed.
+func (c *conv) abiAttrs(get func(kind uint) llvm.Attribute) string {
+	var out []string
+	for _, k := range abiKinds {
+		a := get(llvm.AttributeKindID(k))
+		if a.IsNil() {
+			continue
+		}
+		if k == "byval" || k == "sret" {
+			if t := a.GetTypeValue(); !t.IsNil() {
+				ct := c.typ(t)
+				out = append(out, fmt.Sprintf("%s(size=%d,align=%d)", k, ct.Size, ct.Align))
+				continue
+			}
+		}
+		out = append(out, k)
+	}
+	return strings.Join(out, " ")
 }
 
 func (c *conv) val(v llvm.Value) *IRValue {
@@ -476,6 +512,9 @@ func (c *conv) fill(in *Instr, ins llvm.Value, fname string) {
 		in.Indices = ins.Indices()
 	case "call":
 		in.FnTy = c.typ(ins.CalledFunctionType())
+		for i := 0; i <= len(in.FnTy.Elems); i++ {
+			in.Attrs = append(in.Attrs, c.abiAttrs(func(k uint) llvm.Attribute { return ins.GetCallSiteEnumAttribute(i, k) }))
+		}
 	case "add", "sub", "mul", "shl":
 		head := in.Text
 		in.NSW = strings.Contains(head, " nsw ")
